@@ -35,6 +35,17 @@ class TDerived2(TDerived):
     f: BitVector[WidthArg]
 
 
+class PlainBase(std.Record):
+    a: BitVector[3]
+    b: Bit
+
+
+class PlainDerived(PlainBase):
+    """adds a field: a PlainDerived value has more bits than a PlainBase value"""
+
+    c: Unsigned[2]
+
+
 class Flags(std.FlagEnum[BitVector[3]]):
     f0 = "001"
     f1 = "010"
@@ -60,6 +71,16 @@ class Reg(BitField[8]):
     sub: SubField[4]
     top: BitField.Field[7]
 
+
+class RegSliceSyntax(BitField[8]):
+    """a nested sub-BitField placed with the slice spelling: SubField[4:2] occupies bits 4..2, i.e. offset 2 (== SubField[2])"""
+
+    low: BitField.Field[1:0]
+    sub: SubField[4:2]
+    high: BitField.Field[7:5]
+
+
+REG_SLICE_LAYOUT = {"low": (1, 0, "bv"), "sub.lo": (2, 2, "bit"), "sub.up": (4, 3, "bv"), "high": (7, 5, "bv")}
 
 REG_LAYOUT = {
     # name: (hi, lo, kind)
